@@ -6,8 +6,11 @@ proofs : coq/theories/C19 - hidden inputs made explicit (seed of RandomState, hi
 tie    : T-gen (the facts ARE the source: aliases' hasher, every hash-collection mention with its origin, every
          global-state / environment pattern).  C19_facts_ok is re-proved by vm_compute on the regenerated file.
 search : (TESTING, labelled so) the real expanders, through the in-process harness, on a corpus that exercises every
-         hash-iterating expander: (a) 8 fresh processes with different environments / cwd / ASLR, (b) one process,
-         3 different orders of preceding expansions; byte comparison of the emitted token strings.
+         hash-iterating expander: (a) 8 fresh processes with different environments / cwd / ASLR, (b) one process AND
+         one thread (harness cmd expand_seq - the proc-macro server expands a crate's derives on one thread), 3 orders
+         of the whole corpus, (c) histories that differ in SIZE: small items of every hash-iterating expander alone (own
+         process) vs after much larger items of the same / of other derives, twice, and after a different item of the
+         same name; comparison of the emitted token strings.
 control: the same keys collected into the crate's alias set and into a std RandomState set (harness cmd hash_probe):
          the first must agree everywhere, the second is expected to differ (shows the search can see a violation).
 """
@@ -154,6 +157,57 @@ def gen_error(rng, k):
     vs.append("Fixed { source: std::io::Error }")
     item = "enum X%d<%s> { %s }" % (k, ", ".join(params), ", ".join(vs))
     return "Error", item, len(bounds)
+
+
+def gen_small(rng, mech, k):
+    """an item whose iterated collection has 2-6 entries"""
+    nm = "Sm%d" % k
+    if mech == "from_str":
+        ws = rng.sample(["low", "medium", "high", "red", "green", "blue", "north", "east", "up", "down", "left", "q"],
+                        rng.randrange(2, 7))
+        return "FromStr", "enum %s { %s }" % (nm, ", ".join(w.capitalize() for w in ws)), len(ws)
+    if mech == "try_into":
+        tys = rng.sample(TYPES[:12], rng.randrange(2, 6))
+        return "TryInto", "#[try_into(owned, ref)] enum %s { %s }" % (
+            nm, ", ".join("V%d(%s)" % (i, t) for i, t in enumerate(tys))), 2 * len(tys)
+    if mech == "error":
+        ps = ["A", "B", "C", "D", "E"][:rng.randrange(2, 6)]
+        return "Error", "enum %s<%s> { %s }" % (nm, ", ".join(ps), ", ".join(
+            "V%d { source: %s }" % (i, p) for i, p in enumerate(ps))), len(ps)
+    ps = ["A", "B", "C", "D", "E"][:rng.randrange(2, 6)]
+    d = rng.choice(MUL_LIKE if mech == "mul_like" else MUL_ASSIGN_LIKE)
+    return d, "struct %s<%s>(%s);" % (nm, ", ".join(ps), ", ".join(ps)), len(ps)
+
+
+def gen_big(rng, mech, k, n):
+    """an item of the same mechanism whose iterated collection has about n entries"""
+    nm = "Big%d" % k
+    if mech == "from_str":
+        return "FromStr", "enum %s { %s }" % (nm, ", ".join("Name%dx%d" % (k, i) for i in range(n))), n
+    if mech == "try_into":
+        return "TryInto", "#[try_into(owned, ref, ref_mut)] enum %s { %s }" % (
+            nm, ", ".join("V%d([u8; %d])" % (i, i + 1) for i in range(n))), 3 * n
+    if mech == "error":
+        ps = ["P%d" % i for i in range(n)]
+        return "Error", "enum %s<%s> { %s }" % (nm, ", ".join(ps), ", ".join(
+            "V%d { source: %s }" % (i, p) for i, p in enumerate(ps))), n
+    ps = ["P%d" % i for i in range(n)]
+    d = (MUL_LIKE if mech == "mul_like" else MUL_ASSIGN_LIKE)[k % 5]
+    return d, "struct %s<%s>(%s);" % (nm, ", ".join(ps), ", ".join(ps)), n
+
+
+MECHS = ["from_str", "try_into", "error", "mul_like", "mul_assign_like"]
+
+
+def run_seq(binary, seq, env, cwd, timeout=600):
+    """one fresh process, ONE thread: the expand requests of `seq` one after the other -> list of parsed answers"""
+    lines, rc = run_process(binary, [{"cmd": "expand_seq", "reqs": seq}], env, cwd, timeout=timeout)
+    if rc != 0 or len(lines) != 1:
+        return None
+    try:
+        return json.loads(lines[0])["seq"]
+    except Exception:
+        return None
 
 
 LEGACY = [
@@ -337,14 +391,28 @@ def run(tier, seed, replay):
     if facts is not None and not replay:
         try:
             controls = mutated_facts(chk)
+            # `translator-insensitive` = a control of the TRANSLATOR itself failed: a known-bad edit of a copy of the
+            # sources did not make facts_ok false (or the unedited copy does not reproduce the verdict of the real
+            # run).  It says nothing about the tree under test and never replaces the findings below.
+            base_ok = not getattr(chk, "proof_broken", False)
             for name, v in controls:
-                expect_ok = name.startswith("identity")
                 got_ok = (v == "true")
                 chk.count(("control", name), True)
-                if got_ok != expect_ok:
+                if name.startswith("identity"):
+                    if got_ok != base_ok and st is not None and st.get("ok") is not None:
+                        # only meaningful when the proof status reflects facts_ok (Proofs.v:hash_facts_ok)
+                        failed = (chk.proof_failure or {}).get("failed", "") if getattr(chk, "proof_broken", False) else ""
+                        if base_ok or "Proofs.v" in str(failed):
+                            chk.violation("translator-insensitive", {"mutation": name, "facts_ok": v, "real_run_ok": base_ok},
+                                          "the unedited copy gives facts_ok = %s but the real run's C19_facts_ok is %s" %
+                                          (v, "proved" if base_ok else "broken"), no_input=True)
+                elif got_ok:
                     chk.violation("translator-insensitive", {"mutation": name, "facts_ok": v},
-                                  "sensitivity control: mutation %r gives facts_ok = %s (expected %s)" %
-                                  (name, v, "true" if expect_ok else "false"), no_input=True)
+                                  "sensitivity control: mutation %r gives facts_ok = %s (expected false)" % (name, v),
+                                  no_input=True)
+                elif not base_ok:
+                    chk.notes.append("sensitivity control %r is uninformative in this run: facts_ok is already false "
+                                     "on the unedited sources" % name)
         except common.BuildError as e:
             chk.violation("translator-control-failed", {"error": str(e)[-1500:]},
                           "the mutated-source controls could not be evaluated", no_input=True)
@@ -353,6 +421,7 @@ def run(tier, seed, replay):
     table = common.run_jsonl(binary, [{"cmd": "list"}])[0]["derives"]
     special = set(HASH_DERIVES) | set(MUL_LIKE) | set(MUL_ASSIGN_LIKE)
     others = [d for d, _ in table]
+    r = {}
     if replay:
         r = json.load(open(replay))["replay"]
         cases = [(r["derive"], r["item"], 2, "replay")]
@@ -421,33 +490,106 @@ def run(tier, seed, replay):
         chk.violation("control-blind", {"orders": len(random_orders)},
                       "the RandomState control shows no variation between processes: the byte comparison is blind", no_input=True)
 
-    # (b) one process, 3 different orders of preceding expansions
+    # (b) ONE process, ONE thread (as the proc-macro server does it), 3 different orders of preceding expansions
+    def parsed(line):
+        try:
+            return json.loads(line)
+        except Exception:
+            return {"unparsable": line[:200].decode("utf-8", "replace") if isinstance(line, bytes) else str(line)[:200]}
+
+    ref = [parsed(l) for l in ref_lines[:len(reqs)]]
     idx = list(range(len(reqs)))
     orders = {"as-generated": idx, "reversed": idx[::-1], "shuffled": rng.sample(idx, len(idx))}
-    # a fourth, repeated run inside the same process: every item twice in a row
-    ref_by_item = {}
     for name, order in orders.items():
-        lines, rc = run_process(binary, [reqs[j] for j in order], envs[0]["env"], envs[0]["cwd"])
-        if rc != 0 or len(lines) != len(order):
-            chk.violation("harness-crash", {"order": name, "rc": rc}, "the %s order run did not complete" % name)
+        got = run_seq(binary, [reqs[j] for j in order], envs[0]["env"], envs[0]["cwd"])
+        if got is None or len(got) != len(order):
+            chk.violation("harness-crash", {"order": name}, "the %s order run did not complete" % name)
             continue
         for pos, j in enumerate(order):
             d, it, g, mech = cases[j]
             n_cmp += 1
             chk.count((d, it, "order"), mech != "other" and g >= 2 and kinds.get(j) == "ok")
-            if lines[pos] != ref_lines[j]:
+            if got[pos] != ref[j]:
                 chk.violation("nondeterministic-across-histories:" + mech,
-                              {"derive": d, "item": it, "output_a": ref_lines[j].decode("utf-8", "replace"),
-                               "output_b": lines[pos].decode("utf-8", "replace"), "order": name, "position": pos,
-                               "preceding": [cases[q][1][:80] for q in order[max(0, pos - 3):pos]]},
-                              "derive(%s) expands differently after a different sequence of expansions: %s" % (d, it[:200]))
+                              {"derive": d, "item": it, "output_a": json.dumps(ref[j]), "output_b": json.dumps(got[pos]),
+                               "history": "whole corpus, order " + name, "position": pos,
+                               "preceding": [{"derive": cases[q][0], "item": cases[q][1]} for q in order[max(0, pos - 6):pos]]},
+                              "derive(%s) expands differently after a different sequence of expansions on the same "
+                              "thread: %s" % (d, it[:200]))
+
+    # (c) histories that differ in SIZE: every hash-iterating expander, small items {alone (own process), after a
+    #     much larger item of the same derive, after much larger items of the other derives, twice, after a
+    #     different item of the same NAME}
+    n_hist = 0
+    if replay and "preceding" in r:
+        hist_plan = [("replay", [(x["derive"], x["item"]) for x in r["preceding"]], [(r["derive"], r["item"], 2)], "replay")]
+    elif replay:
+        hist_plan = []
+    else:
+        hist_plan = []
+        n_small = 8 if tier == "quick" and not widen else 40
+        for mi, mech in enumerate(MECHS):
+            smalls = [gen_small(rng, mech, 100 * mi + q) for q in range(n_small)]
+            bigs_same = [gen_big(rng, mech, 100 * mi + q, n) for q, n in enumerate((12, 40, 150))]
+            bigs_other = [gen_big(rng, m2, 900 + 10 * mi + q, 30 + 10 * q) for q, m2 in enumerate(MECHS) if m2 != mech]
+            twins = [gen_small(rng, mech, 100 * mi + q) for q in range(n_small)]       # same names, other bodies
+            sm = [(d, it, g) for d, it, g in smalls]
+            hist_plan.append((mech + ": after one larger item of the same derive", [bigs_same[0][:2]], sm, mech))
+            hist_plan.append((mech + ": after much larger items of the same derive", [b[:2] for b in bigs_same], sm[::-1], mech))
+            hist_plan.append((mech + ": after larger items of the other derives", [b[:2] for b in bigs_other], sm, mech))
+            hist_plan.append((mech + ": every item twice, large item in between",
+                              [x[:2] for x in sm] + [bigs_same[1][:2]], sm, mech))
+            inter = []
+            for tw, s_ in zip(twins, sm):
+                inter.append((tw[:2], s_))
+            hist_plan.append((mech + ": after a different item of the same name", None, inter, mech))
+    alone_cache = {}
+
+    def alone(d, it):
+        key = (d, it)
+        if key not in alone_cache:
+            got = run_seq(binary, [{"derive": d, "item": it, "summary": False}], envs[0]["env"], envs[0]["cwd"])
+            alone_cache[key] = got[0] if got else None
+        return alone_cache[key]
+
+    for (hname, prefix, smalls, mech) in hist_plan:
+        if prefix is None:          # interleaved twins: [twin1, s1, twin2, s2, ...]
+            seq = []
+            targets = []
+            for tw, s_ in smalls:
+                seq.append(tw)
+                targets.append((len(seq), s_))
+                seq.append(s_[:2])
+        else:
+            seq = list(prefix)
+            targets = []
+            for s_ in smalls:
+                targets.append((len(seq), s_))
+                seq.append(s_[:2])
+        got = run_seq(binary, [{"derive": d, "item": it, "summary": False} for d, it in seq], envs[0]["env"], envs[0]["cwd"])
+        if got is None or len(got) != len(seq):
+            chk.violation("harness-crash", {"history": hname}, "the history run %r did not complete" % hname)
+            continue
+        chk.bump("history:" + hname.split(": ", 1)[-1])
+        for pos, (d, it, g) in targets:
+            a = alone(d, it)
+            n_cmp += 1
+            n_hist += 1
+            chk.count((d, it, hname), g >= 2 and a is not None and "ok" in a)
+            if a != got[pos]:
+                chk.violation("nondeterministic-across-histories:" + mech,
+                              {"derive": d, "item": it, "output_a": json.dumps(a), "output_b": json.dumps(got[pos]),
+                               "history": hname, "position": pos,
+                               "preceding": [{"derive": x, "item": y} for x, y in seq[:pos]][-8:]},
+                              "derive(%s) on `%s` expands differently alone and %s" % (d, it[:160], hname.split(": ", 1)[-1]))
     chk.cov["traces_validated_against_impl"] = n_cmp
     for j, (d, it, g, mech) in enumerate(cases):
         if mech != "other" and g >= 4 and kinds.get(j) == "ok":
             chk.sample({"derive": d, "item": it[:300], "entries_in_iterated_collection": g}, limit=8)
     shutil.rmtree(base_dir, ignore_errors=True)
 
-    if getattr(chk, "proof_broken", False) and not chk.violations:
+    with_input = [v for v in chk.violations if not v[3]]
+    if getattr(chk, "proof_broken", False) and not with_input:
         chk.violation("proof-broken", chk.proof_failure,
                       "a C19 obligation no longer checks (%s) and the multi-process / multi-order search over %d "
                       "comparisons found no differing output" % (chk.proof_failure["failed"], n_cmp), no_input=True)
@@ -457,7 +599,8 @@ def run(tier, seed, replay):
     extra = {"search_is_testing": True,
              "aslr_randomize_va_space": aslr,
              "environments": [e["desc"] for e in envs],
-             "orders": list(orders),
+             "orders": list(orders), "size_history_comparisons": n_hist,
+             "histories": sorted(set(h[0].split(": ", 1)[-1] for h in hist_plan)),
              "controls": {"alias_orders_seen": len(alias_orders), "random_state_orders_seen": len(random_orders),
                           "translator_mutations": [{"mutation": n, "facts_ok": v} for n, v in controls]}}
     if facts is not None:
@@ -469,7 +612,9 @@ def run(tier, seed, replay):
              "owned/ref/ref_mut over a 17-type pool; FromStr: 2-8 words x 1-5 case spellings; Error: 1-8 type parameters "
              "as sources under 7 wrappers; Mul-/MulAssign-like x 5 traits: 1-11 fields over 6 shapes x 7 parameters), the "
              "legacy `types(..)` attribute spellings, and 8-13 fixed shapes for every derive of the table; each item is "
-             "expanded in 8 fresh processes (environment/cwd/ASLR varied) and in 3 orders within one process; "
+             "expanded in 8 fresh processes (environment/cwd/ASLR varied) and in 3 orders within one process and thread; small "
+             "items (2-6 entries) of each hash-iterating expander are additionally expanded alone vs after 12/40/150-entry "
+             "items of the same derive, after 30-60-entry items of the other derives, twice, and after a same-named item; "
              "non-trivial = the iterated collection has >= 2 entries and the expansion succeeds; distinct by (derive, item)",
         trusted=TRUSTED, extra=extra)
 
